@@ -102,7 +102,7 @@ func judgeRID(spec serverSpec, rec *callRec, prevFresh map[string]bool, ex expla
 				long = true
 			}
 		}
-		if long || (m.limit > 0 && len(id) > m.limit && len(srcVals) > 0) {
+		if long {
 			out = append(out, finding{"reqid:" + t + ":truncation-wrong:" + ridClass(srcVals), fmt.Sprintf("request ID %q does not respect limit %d", clip(id), m.limit)})
 		} else {
 			out = append(out, finding{"reqid:" + t + ":trusted-value-not-used", fmt.Sprintf("trusted inbound value %q not used: request ID is %q", clip(first(srcVals)), clip(id))})
